@@ -45,6 +45,8 @@ def execute(c):
     if timedim:
         coords = {"time": [_stamp(t) for t in axis]}
         da = xr.DataArray(data.T.reshape(N, npx, 1), dims=("time", "y", "x"), coords=coords)
+        if call.get("dask"):
+            da = da.chunk({"y": 1})
         lab = (lambda t: str(_stamp(t))) if call.get("strlabels") else _stamp
         back = {str(_stamp(t)): t for t in axis}
     else:
@@ -94,7 +96,7 @@ def execute(c):
 def mk(axis, n, b, e, method, func, rng, dim="time", npx=2, strlabels=False):
     N = len(axis)
     data = [[("nan" if rng.random() < 0.25 else str(rng.randint(-20, 20))) for _ in range(N)] for _ in range(npx)]
-    return {"call": {"axis": axis, "n": n, "b": b, "e": e, "method": method, "func": func, "dim": dim, "data": data, "strlabels": strlabels}}
+    return {"call": {"axis": axis, "n": n, "b": b, "e": e, "method": method, "func": func, "dim": dim, "data": data, "strlabels": strlabels, "dask": rng.random() < 0.1}}
 
 
 def gen_cases(tier, seed):
